@@ -19,6 +19,8 @@ def shards(tier, seed):
     out = [{"name": f"date:{cid}", "kind": "date", "cal": cid, "n": n} for cid in CalendarSystem.ids]
     k = 4 if tier == "quick" else 16
     out += [{"name": f"interval:{i}", "kind": "interval", "n": (4000 if tier == "quick" else 60000)} for i in range(k)]
+    # the same (year, month) numbers through every calendar inside one process, in seeded calendar order
+    out += [{"name": f"ym-cross:{i}", "kind": "ym-cross", "n": 40 if tier == "quick" else 600} for i in range(1 if tier == "quick" else 4)]
     return out
 
 
@@ -264,6 +266,16 @@ def run(ctx, shard):
         for y in years:
             for m in range(1, cal.get_months_in_year(y) + 1):
                 _guard(ctx, {"kind": "ym", "cal": cid, "y": y, "m": m})
+    elif shard["kind"] == "ym-cross":
+        cals = gen.calendars()
+        for n in range(shard["n"]):
+            y = rng.choice([1400, 5784, 1, 9000, rng.randint(1, 9300), rng.randint(1300, 1500), rng.randint(1, 900)])
+            order = list(cals); rng.shuffle(order)
+            for m in rng.sample(range(1, 14), 4):
+                for cal in order:
+                    if cal.min_year <= y <= cal.max_year and m <= cal.get_months_in_year(y):
+                        _guard(ctx, {"kind": "ym", "cal": cal.id, "y": y, "m": m})
+        ctx.sample({"kind": "ym-cross", "calendars": len(cals)})
     else:
         lo, hi = gen.INST_MIN_NS, gen.INST_MAX_NS
         for n in range(shard["n"]):
